@@ -82,3 +82,11 @@ pub fn puppet_method_manifest(component: ComponentAddress, method: &str, script:
         .call_method(component, method, (script.clone_as_manifest_value(),))
         .build()
 }
+
+/// `Op::Import` of references to the given global nodes: makes them visible to the frame running the script
+/// (and pushes one Node slot per node).
+pub fn import_refs(nodes: &[NodeId]) -> Op {
+    Op::Import(ScryptoValue::Tuple {
+        fields: nodes.iter().map(|n| ScryptoValue::Custom { value: ScryptoCustomValue::Reference(Reference(*n)) }).collect(),
+    })
+}
